@@ -31,6 +31,10 @@ func represent(t *rapid.T, p ref.Pt, label string) (*secp256k1.Point, string) {
 	}
 }
 
+func sibling(p ref.Pt, second bool) (*secp256k1.Point, ref.Pt, bool) {
+	return lib.SiblingRepresentative(p, second)
+}
+
 func hookEntry(entry string, rcv *secp256k1.Point, s *secp256k1.Scalar, p *secp256k1.Point) *secp256k1.Point {
 	return rcv.VerifScalarMultVartimeGLV(s, p)
 }
